@@ -50,7 +50,7 @@ def installed(fs):
     import builtins
     import io
     from . import simfs
-    saved = (builtins.open, io.open, os.path.isfile, os.path.exists, os.path.getsize, os.stat)
+    saved = (builtins.open, io.open, os.path.isfile, os.path.exists, os.path.getsize, os.stat, os.path.getmtime)
 
     def p_isfile(p):
         return fs.isfile(p) if simfs.sim_name(p) is not None else saved[2](p)
@@ -61,16 +61,21 @@ def installed(fs):
     def p_getsize(p):
         return fs.getsize(p) if simfs.sim_name(p) is not None else saved[4](p)
 
+    def p_getmtime(p):
+        return fs.getmtime(p) if simfs.sim_name(p) is not None else saved[6](p)
+
     def p_stat(p, *a, **kw):
         return fs.stat(p) if simfs.sim_name(p) is not None else saved[5](p, *a, **kw)
     builtins.open = fs.open
     io.open = fs.open
     os.path.isfile, os.path.exists, os.path.getsize, os.stat = p_isfile, p_exists, p_getsize, p_stat
+    os.path.getmtime = p_getmtime
     try:
         yield fs
     finally:
         builtins.open, io.open = saved[0], saved[1]
-        os.path.isfile, os.path.exists, os.path.getsize, os.stat = saved[2:]
+        os.path.isfile, os.path.exists, os.path.getsize, os.stat = saved[2:6]
+        os.path.getmtime = saved[6]
 
 
 class _Sink(object):
